@@ -7,6 +7,7 @@ import (
 	"encoding/binary"
 	"errors"
 	"io"
+	"runtime"
 	"sync"
 	"time"
 )
@@ -28,6 +29,7 @@ type memConn struct {
 	writes int
 	// onWrite (optional) is called after the k-th Write (k = 1, 2, …) has been recorded
 	onWrite func(k int)
+	yield   bool
 	// failWriteAt > 0: the k-th Write fails (nothing written) and so does every later one
 	failWriteAt int
 }
@@ -76,7 +78,17 @@ func (c *memConn) Read(p []byte) (int, error) {
 	return 0, io.EOF
 }
 
+// Write records the bytes; with yield set the writer gives up the processor afterwards, as a write to a
+// real socket (a system call) may — so that concurrent writers interleave at every write
 func (c *memConn) Write(p []byte) (int, error) {
+	n, err := c.write(p)
+	if c.yield {
+		runtime.Gosched()
+	}
+	return n, err
+}
+
+func (c *memConn) write(p []byte) (int, error) {
 	c.mu.Lock()
 	defer c.mu.Unlock()
 	if c.closed {
